@@ -54,6 +54,8 @@ func init() {
 	simsFor["C16"] = []simWeight{{"grid", 1}}
 	register(c12Sim{})
 	simsFor["C12"] = []simWeight{{"c12", 1}}
+	register(c15Sim{})
+	simsFor["C15"] = []simWeight{{"c15", 1}}
 	register(c17Sim{})
 	simsFor["C17"] = []simWeight{{"c17", 1}}
 	register(c13Sim{})
